@@ -45,7 +45,10 @@ type stNode struct {
 	Key string    `json:"key,omitempty"`
 	Ref string    `json:"ref,omitempty"`
 	Cov string    `json:"cov,omitempty"`
-	Ki  string    `json:"ki,omitempty"`
+	// Ki is the KeyInfo of a Signature: no element at all (empty), or its children in order - each group is one
+	// X509Data with its items ("self" the signer's certificate as sent, "other", a certificate name, "bad" an
+	// X509Certificate that holds none, "subj" an X509SubjectName), the group ["rsa"] a KeyValue / RSAKeyValue
+	Ki [][]string `json:"ki,omitempty"`
 }
 
 type stBaseSpec struct {
@@ -106,11 +109,27 @@ func stKeyName(model string) string {
 // identities
 
 const (
-	stArtReqID  = "id-artresolve-0123456789abcdef"
-	stRequestID = "id-authnreq-0f1e2d3c4b5a6978"
-	stEvilID1   = "id-x1-evil-5ca1ab1e"
-	stEvilID2   = "id-x2-evil-0ddba11"
+	// the ID of the SP's ArtifactResolve request: what MakeArtifactResolveRequest writes ("id-%x" of 20 bytes) when
+	// saml.RandReader yields stArtReqByte only, so that a message the IdP signed for ParseXMLArtifactResponse is also
+	// the answer to the request that ParseResponse (SAMLart) sends itself
+	stArtReqByte = 0x5a
+	stArtReqID   = "id-5a5a5a5a5a5a5a5a5a5a5a5a5a5a5a5a5a5a5a5a"
+	stRequestID  = "id-authnreq-0f1e2d3c4b5a6978"
+	stEvilID1    = "id-x1-evil-5ca1ab1e"
+	stEvilID2    = "id-x2-evil-0ddba11"
+	stEvilID3    = "id-x3-evil-c0ffee"
+	nsSoap       = "http://schemas.xmlsoap.org/soap/envelope/"
 )
+
+// stConstReader: every byte is stArtReqByte (the ArtifactResolve ID is then stArtReqID)
+type stConstReader struct{}
+
+func (stConstReader) Read(p []byte) (int, error) {
+	for i := range p {
+		p[i] = stArtReqByte
+	}
+	return len(p), nil
+}
 
 // stIdentity is the identity-bearing content of an assertion: issuer, subject (NameID and
 // confirmations), conditions, authentication and attribute statements.
@@ -760,6 +779,8 @@ func (r *stRender) concreteID(id string) string {
 		return stEvilID1
 	case "X2":
 		return stEvilID2
+	case "X3":
+		return stEvilID3
 	}
 	return ""
 }
@@ -789,36 +810,64 @@ func stInjectComment(el *etree.Element) {
 	n.AddChild(etree.NewText(t[2:]))
 }
 
-// stApplyKI rewrites the KeyInfo of a Signature element (outside SignedInfo, so never covered).
-func stApplyKI(sig *etree.Element, ki string, signer *KeyPair, bad int) {
+// stKIAsSent: the KeyInfo is what the signer wrote (one X509Data with his certificate)
+func stKIAsSent(ki [][]string) bool { return len(ki) == 1 && len(ki[0]) == 1 && ki[0][0] == "self" }
+
+// stCertItemText: what an X509Certificate item holds
+func stCertItemText(item string, signer *KeyPair, bad int) string {
+	switch item {
+	case "self":
+		return signer.CertB64()
+	case "other":
+		if signer.Name == "att" || signer.Name == "idpenc" {
+			return key("idp1").CertB64() // trusted certificate on an attacker signature
+		}
+		return key("att").CertB64() // attacker certificate on a genuine signature
+	case "Kidp1", "Kidp2", "Katt", "Kenc":
+		return key(stKeyName(item)).CertB64() // that certificate, whoever signed
+	case "bad":
+		return stBadCerts[bad%len(stBadCerts)]() // an X509Certificate element that holds no certificate
+	}
+	panic("unknown KeyInfo item " + item)
+}
+
+// stApplyKI rewrites the KeyInfo of a Signature element (outside SignedInfo, so never covered by its own
+// signature): the children of ds:KeyInfo are written in the order the vector gives them.
+func stApplyKI(sig *etree.Element, ki [][]string, signer *KeyPair, bad int) {
 	kiEl := stChildByTag(sig, "KeyInfo")
-	switch ki {
-	case "cert":
-	case "none":
+	if stKIAsSent(ki) {
+		return
+	}
+	if len(ki) == 0 {
 		if kiEl != nil {
 			sig.RemoveChild(kiEl)
 		}
-	case "rsakeyvalue":
-		for _, c := range kiEl.ChildElements() {
-			kiEl.RemoveChild(c)
+		return
+	}
+	if len(ki) == 1 && len(ki[0]) == 1 && ki[0][0] != "rsa" && ki[0][0] != "subj" {
+		// one certificate: the text of the element the signer wrote is replaced (same bytes when it names his own)
+		kiEl.FindElement("./X509Data/X509Certificate").SetText(stCertItemText(ki[0][0], signer, bad))
+		return
+	}
+	for _, c := range append([]etree.Token{}, kiEl.Child...) {
+		kiEl.RemoveChild(c)
+	}
+	for _, group := range ki {
+		if len(group) == 1 && group[0] == "rsa" {
+			kv := kiEl.CreateElement("ds:KeyValue").CreateElement("ds:RSAKeyValue")
+			pub := signer.RSA().PublicKey
+			kv.CreateElement("ds:Modulus").SetText(base64.StdEncoding.EncodeToString(pub.N.Bytes()))
+			kv.CreateElement("ds:Exponent").SetText("AQAB")
+			continue
 		}
-		kv := kiEl.CreateElement("ds:KeyValue").CreateElement("ds:RSAKeyValue")
-		pub := signer.RSA().PublicKey
-		kv.CreateElement("ds:Modulus").SetText(base64.StdEncoding.EncodeToString(pub.N.Bytes()))
-		kv.CreateElement("ds:Exponent").SetText("AQAB")
-	case "othercert":
-		other := "att" // attacker certificate on a genuine signature
-		if signer.Name == "att" || signer.Name == "idpenc" {
-			other = "idp1" // trusted certificate on an attacker signature
+		xd := kiEl.CreateElement("ds:X509Data")
+		for _, item := range group {
+			if item == "subj" {
+				xd.CreateElement("ds:X509SubjectName").SetText("CN=" + signer.Cert.Subject.CommonName)
+				continue
+			}
+			xd.CreateElement("ds:X509Certificate").SetText(stCertItemText(item, signer, bad))
 		}
-		kiEl.FindElement("./X509Data/X509Certificate").SetText(key(other).CertB64())
-	case "Kidp1", "Kidp2", "Katt", "Kenc":
-		kiEl.FindElement("./X509Data/X509Certificate").SetText(key(stKeyName(ki)).CertB64()) // that certificate, whoever signed
-	case "bad":
-		x := kiEl.FindElement("./X509Data/X509Certificate")
-		x.SetText(stBadCerts[bad%len(stBadCerts)]()) // an X509Certificate element that holds no certificate
-	default:
-		panic("unknown KeyInfo variant " + ki)
 	}
 }
 
@@ -850,8 +899,13 @@ func (r *stRender) render(n *stNode) *etree.Element {
 	spaceOK := false
 	switch n.K {
 	case "ArtResp":
-		el = b.art.Copy()
-		spaceOK = b.spec.Art != "signed"
+		if n.Org == "g" {
+			el = b.art.Copy()
+			spaceOK = b.spec.Art != "signed"
+		} else {
+			el = stArtShell(b.now, r.concreteID(n.ID))
+			spaceOK = true
+		}
 	case "Resp":
 		if n.Org == "g" {
 			el = b.resp.Copy()
@@ -901,6 +955,13 @@ func (r *stRender) render(n *stNode) *etree.Element {
 			el.CreateAttr("xmlns:ds", "urn:evil:redeclared:dsig")
 		}
 		spaceOK = true
+	case "Env", "Body", "Hdr":
+		// the SOAP envelope of the artifact back channel: plain containers, outside every digest
+		el = etree.NewElement("soap:" + map[string]string{"Env": "Envelope", "Body": "Body", "Hdr": "Header"}[n.K])
+		if n.K == "Env" {
+			el.CreateAttr("xmlns:soap", nsSoap)
+		}
+		spaceOK = true
 	case "EncAssn":
 		if n.Org == "g" {
 			el = b.enc.Copy()
@@ -916,7 +977,7 @@ func (r *stRender) render(n *stNode) *etree.Element {
 	default:
 		panic("unknown node kind " + n.K)
 	}
-	if n.K != "Sig" && n.K != "Obj" && n.K != "Wrap" {
+	if n.K == "Resp" || n.K == "ArtResp" || n.K == "Assn" {
 		if n.Org == "g" && n.Ed && n.K != "Assn" {
 			el.CreateAttr("Consent", "urn:oasis:names:tc:SAML:2.0:consent:obtained")
 		}
@@ -995,19 +1056,12 @@ func (r *stRender) render(n *stNode) *etree.Element {
 	return el
 }
 
-func stSoap(el *etree.Element) *etree.Element {
-	env := etree.NewElement("soap:Envelope")
-	env.CreateAttr("xmlns:soap", "http://schemas.xmlsoap.org/soap/envelope/")
-	env.CreateElement("soap:Body").AddChild(el)
-	return env
-}
-
 // stDocument renders the whole vector for one base message.
 func stDocument(v *stVec, b *stBase, vr stVariants, rng *rand.Rand) (doc []byte, r *stRender) {
 	r = &stRender{base: b, vr: vr, rng: rng, bad: rng.Intn(len(stBadCerts))}
 	root := r.render(v.T)
-	if v.B.Art != "none" {
-		root = stSoap(root)
+	if (v.B.Art != "none") != (v.T.K == "Env") {
+		panic("artifact deliveries, and only they, are SOAP envelopes in the model")
 	}
 	d := etree.NewDocument()
 	if vr.Prolog {
